@@ -229,7 +229,10 @@ func (c *caseRun) scenario(id int) {
 func Run(r *corr.Run) {
 	r.SetRule("a case = a fresh space (real any-store) with 3..6 objects (some bound to a parent), 1..2 remote settings authors, and a sequence of 20..60 steps from {put, fetch, fstart/ffin, edit, head, rec (plain/snapshot), xfer, deliver (closed prefix / arbitrary subset, shuffled), del, run, crash (worker pass cut after its first id, then restart), restart}; 10 scripted guard scenarios (fetch race, late child, restart between queued and deleted, snapshot root, tombstone before creation, deletion during a parked fetch, crash inside a worker pass, deletion landing right before the storage-creating transaction of a put / a fetch / a parked fetch's response) each continued randomly; non-trivial = a tombstone was reached; distinct = distinct model-protocol traces")
 	// scripted scenarios first (all parents variants relevant to them)
-	for id := 0; id < 10 && r.TimeLeft(); id++ {
+	for _, id := range []int{7, 8, 9, 0, 1, 2, 3, 4, 5, 6} {
+		if !r.TimeLeft() {
+			break
+		}
 		for variant := 0; variant < 2; variant++ {
 			parents := []int{-1, 0, 0, -1}
 			if variant == 1 {
